@@ -67,12 +67,10 @@ pub fn lockstep_model(ty: &dyn GenType, model: RefModel, seed: &[u8], steps: usi
     let info = ty.info();
     let mk = |what: &str, extra: serde_json::Value| (what.to_string(), json!({"kind":"lockstep","type":info.name,"seed":hex(seed),"steps":steps,"detail":extra}));
     let mut g = from_seed_guarded(ty, seed).map_err(|e| mk(&e, json!(null)))?;
-    // the state image must be the seed itself
-    if let Some(img) = g.ser() {
-        if img != seed {
-            return Err(mk("state image after from_seed differs from the seed bytes", json!({"image": hex(&img)})));
-        }
-    }
+    // the state image is the seed itself wherever the serde image is the plain state (a different image
+    // is a verdict only together with a wrong output below, or for C08's "used verbatim"; the layout of
+    // the snapshot is not part of this property)
+    let image_differs = matches!(g.ser(), Some(img) if img.len() == seed.len() && img != seed);
     // long runs are compared in windows so that the reference states need not all be kept
     let (outs, states) = if steps <= 64 { model.run(seed, steps) } else { (vec![], vec![]) };
     let mut long_model = if steps > 64 { Some(LongRef::new(model, seed)) } else { None };
@@ -86,14 +84,37 @@ pub fn lockstep_model(ty: &dyn GenType, model: RefModel, seed: &[u8], steps: usi
         };
         let r = guarded(|| native(&mut g, info.word_bits)).map_err(|o| mk(&format!("step {} panicked: {:?}", i, o), json!(null)))?;
         if r != e {
-            return Err(mk(&format!("native output {} is {:#x}, reference {:#x}", i, r, e), json!({"position": i, "observed": format!("{:#x}", r), "expected": format!("{:#x}", e)})));
+            let what = if image_differs && i == 0 { "state image after from_seed differs from the seed bytes, and the first output differs from the reference".to_string() } else { format!("native output {} is {:#x}, reference {:#x}", i, r, e) };
+            return Err(mk(&what, json!({"position": i, "observed": format!("{:#x}", r), "expected": format!("{:#x}", e)})));
         }
         if let Some(sb) = sb_opt {
             // successor state via == against from_seed(reference state)
             if sb.iter().any(|&b| b != 0) {
-                let e = ty.from_seed(&sb);
+                let mut e = ty.from_seed(&sb);
                 if g.eq_dyn(e.as_ref()) != Some(true) {
-                    return Err(mk(&format!("state after {} step(s) differs from the reference state", i + 1), json!({"position": i, "expected_state": hex(&sb)})));
+                    // `==` is C10's subject, not this property's: the verdict is taken on the outputs of a
+                    // serde copy of the generator (or of the generator itself at the last step) against a
+                    // generator started from the reference state, for enough words to pin the state down
+                    let words = 2 * info.seed_len / (info.word_bits / 8) + 4;
+                    let mut copy: Option<Box<dyn crate::subject::Gen>> = if i + 1 == steps { None } else { g.ser().and_then(|b| ty.de(&b)).and_then(|r| r.ok()) };
+                    let mut differ = false;
+                    if i + 1 == steps || copy.is_some() {
+                        for _ in 0..words {
+                            let a = match copy.as_mut() {
+                                Some(c) => native(c, info.word_bits),
+                                None => native(&mut g, info.word_bits),
+                            };
+                            if a != native(&mut e, info.word_bits) {
+                                differ = true;
+                                break;
+                            }
+                        }
+                    } else {
+                        differ = true;
+                    }
+                    if differ {
+                        return Err(mk(&format!("state after {} step(s) differs from the reference state", i + 1), json!({"position": i, "expected_state": hex(&sb)})));
+                    }
                 }
             }
         }
@@ -504,7 +525,9 @@ pub fn run(reg: &dyn Registry, ctx: &Ctx) -> Outcome {
         }
 
         // (d) scrambler sub-cubes
-        for (label, job) in cube_jobs(kind, ctx.seed, thorough, 24) {
+        // (the second, assertion-free build of the harness runs a lighter pass: 2^16 cubes)
+        let light = std::env::var("VERIF_LIGHT").is_ok();
+        for (label, job) in cube_jobs(kind, ctx.seed, thorough && !light, if light { 16 } else { 24 }) {
             let r = ty.sweep(&job);
             ctx.add("cube_elements", r.elements);
             ctx.add("cubes", 1);
